@@ -77,6 +77,17 @@ fn specials() -> Vec<(String, Vec<u8>)> {
     v.push(("func-count-u32max".into(), vec![0, 0x61, 0x73, 0x6d, 1, 0, 0, 0, 1, 4, 1, 0x60, 0, 0, 3, 5, 0xff, 0xff, 0xff, 0xff, 0x0f]));
     v.push(("br-table-count-u32max".into(), vec![0, 0x61, 0x73, 0x6d, 1, 0, 0, 0, 1, 4, 1, 0x60, 0, 0, 3, 2, 1, 0, 10, 12, 1, 10, 0, 0x41, 0, 0x0e, 0xff, 0xff, 0xff, 0xff, 0x0f, 0, 0x0b]));
     v.push(("data-count-u32max".into(), vec![0, 0x61, 0x73, 0x6d, 1, 0, 0, 0, 12, 5, 0xff, 0xff, 0xff, 0xff, 0x0f]));
+    // encodings that only exist with a proposal: the READER (not the validator) decides on them from the feature set
+    {   // (module (memory 1) (func <body>)) with a hand-written body
+        let with_body = |body: &[u8]| -> Vec<u8> { let mut m = vec![0, 0x61, 0x73, 0x6d, 1, 0, 0, 0, 1, 4, 1, 0x60, 0, 0, 3, 2, 1, 0, 5, 3, 1, 0, 1]; let mut f = vec![0u8]; f.extend_from_slice(body); f.push(0x0b); let mut code = vec![1u8, f.len() as u8]; code.extend(f); m.push(10); m.push(code.len() as u8); m.extend(code); m };
+        v.push(("enc-memory-size-canonical".into(), with_body(&[0x3f, 0x00, 0x1a])));
+        v.push(("enc-memory-size-overlong-index".into(), with_body(&[0x3f, 0x80, 0x00, 0x1a])));              // multi-memory reads a LEB, MVP a single zero byte
+        v.push(("enc-memory-grow-overlong-index".into(), with_body(&[0x41, 0x00, 0x40, 0x80, 0x00, 0x1a])));
+        v.push(("enc-load-memarg-bit6-memory0".into(), with_body(&[0x41, 0x00, 0x28, 0x42, 0x00, 0x00, 0x1a])));  // align flag bit 6 = explicit memory index follows
+        v.push(("enc-load-memarg-offset-6-byte-leb".into(), with_body(&[0x41, 0x00, 0x28, 0x02, 0x80, 0x80, 0x80, 0x80, 0x80, 0x00, 0x1a])));   // a u64 offset LEB only with memory64
+        v.push(("enc-load-canonical".into(), with_body(&[0x41, 0x00, 0x28, 0x02, 0x00, 0x1a])));
+        v.push(("enc-call-indirect-overlong-table".into(), { let mut m = vec![0, 0x61, 0x73, 0x6d, 1, 0, 0, 0, 1, 4, 1, 0x60, 0, 0, 3, 2, 1, 0, 4, 4, 1, 0x70, 0, 1]; let f = vec![0u8, 0x41, 0x00, 0x11, 0x00, 0x80, 0x00, 0x0b]; let mut code = vec![1u8, f.len() as u8]; code.extend(f); m.push(10); m.push(code.len() as u8); m.extend(code); m }));
+    }
     v.push(("empty".into(), vec![])); v.push(("header-only".into(), vec![0, 0x61, 0x73, 0x6d, 1, 0, 0, 0])); v.push(("bad-version".into(), vec![0, 0x61, 0x73, 0x6d, 2, 0, 0, 0])); v.push(("component-header".into(), vec![0, 0x61, 0x73, 0x6d, 0x0d, 0, 1, 0]));
     // many functions / types / a long br_table
     { let mut s = String::from("(module "); for _ in 0..30000 { s.push_str("(func) "); } s.push(')'); if let Some(b) = wat(&s) { v.push(("funcs-30000".into(), b)); } }
